@@ -212,7 +212,169 @@ theorem anfArms_allTys (hp : PBase p) : ∀ (arms : List Arm) (n : Nat), allTysA
     exact ⟨⟨h0, h1⟩, h2⟩
 end
 
-/-- no `ETraitCall` appears (ANF builds none) -/
-theorem noTraitCall_placeholder : True := trivial
+/-! ### no `ETraitCall` is built -/
+
+def ntcB : Binds → Bool
+  | [] => true
+  | (_, v) :: L => noTraitCall v && ntcB L
+
+theorem ntcB_append : ∀ (L1 L2 : Binds), ntcB (L1 ++ L2) = (ntcB L1 && ntcB L2)
+  | [], _ => by simp [ntcB]
+  | (x, v) :: L1, L2 => by simp only [List.cons_append, ntcB, ntcB_append L1 L2, Bool.and_assoc]
+
+theorem noTraitCall_wrap : ∀ (L : Binds) (c : Expr), noTraitCall (wrap L c) = (ntcB L && noTraitCall c)
+  | [], c => by simp [wrap, ntcB]
+  | (x, v) :: L, c => by simp only [wrap, noTraitCall, ntcB, noTraitCall_wrap L c, Bool.and_assoc]
+
+def NT (e : Expr) : Prop :=
+  ∀ n, noTraitCall e = true → ntcB (dec e n).L = true ∧ noTraitCall (dec e n).c = true
+
+theorem nt_top {e : Expr} (h : NT e) (n : Nat) (he : noTraitCall e = true) : noTraitCall (anf e n ret).1 = true := by
+  rw [anf_ret, noTraitCall_wrap]
+  have := h n he
+  simp [this.1, this.2]
+
+theorem nt_imm {e : Expr} (h : NT e) (n : Nat) (he : noTraitCall e = true) :
+    ntcB (decImm e n).L = true ∧ noTraitCall (decImm e n).c = true := by
+  cases hat : isAtom e
+  · rw [decImm_nonatom hat]
+    have := h (n + 1) he
+    simp [ntcB_append, ntcB, noTraitCall, this.1, this.2]
+  · rw [decImm_atom hat]; exact ⟨rfl, he⟩
+
+mutual
+theorem dec_ntc : ∀ (e : Expr), NT e
+  | .var _ _, n, _ => by simp [dec, ntcB, noTraitCall]
+  | .prim _, n, _ => by simp [dec, ntcB, noTraitCall]
+  | .tag _ _, n, _ => by simp [dec, ntcB, noTraitCall]
+  | .closure _ _ _, n, h => by simpa [dec, ntcB] using h
+  | .traitCall _ _ _ _ _, n, h => by simp [noTraitCall] at h
+  | .constr (.enum tn vn idx) ty [], n, _ => by simp [dec, ntcB, noTraitCall]
+  | .constr (.struct sn) ty [], n, _ => by simp [dec, decList, ntcB, noTraitCall, noTraitCallList]
+  | .constr c ty (a :: as), n, h => by
+    simp only [noTraitCall] at h
+    have := decList_ntc (a :: as) n h
+    simp only [dec, noTraitCall]; exact this
+  | .tuple ty items, n, h => by
+    simp only [noTraitCall] at h
+    have := decList_ntc items n h
+    simp only [dec, noTraitCall]; exact this
+  | .array ty items, n, h => by
+    simp only [noTraitCall] at h
+    have := decList_ntc items n h
+    simp only [dec, noTraitCall]; exact this
+  | .letE x v b, n, h => by
+    simp only [noTraitCall, Bool.and_eq_true] at h
+    have h1 := dec_ntc v n h.1
+    have h2 := dec_ntc b (dec v n).n h.2
+    simp only [dec, ntcB_append, ntcB, Bool.and_eq_true]
+    exact ⟨⟨h1.1, h1.2, h2.1⟩, h2.2⟩
+  | .ite c t e, n, h => by
+    simp only [noTraitCall, Bool.and_eq_true] at h
+    have h1 := nt_imm (dec_ntc c) n h.1.1
+    have h2 := nt_top (dec_ntc t) (decImm c n).n h.1.2
+    have h3 := nt_top (dec_ntc e) (anf t (decImm c n).n ret).2 h.2
+    unfold decImm at h1 h2 h3
+    simp only [dec, noTraitCall, Bool.and_eq_true]
+    exact ⟨h1.1, ⟨h1.2, h2⟩, h3⟩
+  | .while c b, n, h => by
+    simp only [noTraitCall, Bool.and_eq_true] at h
+    have h1 := nt_top (dec_ntc c) n h.1
+    have h2 := nt_top (dec_ntc b) (anf c n ret).2 h.2
+    simp only [dec, noTraitCall, ntcB, Bool.and_eq_true]
+    exact ⟨trivial, h1, h2⟩
+  | .go e, n, h => by
+    simp only [noTraitCall] at h
+    have := nt_imm (dec_ntc e) n h
+    unfold decImm at this
+    simp only [dec, noTraitCall]; exact this
+  | .matchE ty s arms none, n, h => by
+    simp only [noTraitCall, Bool.and_eq_true] at h
+    have h1 := nt_imm (dec_ntc s) n h.1
+    have h2 := anfArms_ntc arms (decImm s n).n h.2
+    unfold decImm at h1 h2
+    simp only [dec, anfDflt, noTraitCall, Bool.and_eq_true]
+    exact ⟨h1.1, h1.2, h2⟩
+  | .matchE ty s arms (some d), n, h => by
+    simp only [noTraitCall, Bool.and_eq_true] at h
+    have h1 := nt_imm (dec_ntc s) n h.1.1
+    have h2 := anfArms_ntc arms (decImm s n).n h.1.2
+    have h3 := nt_top (dec_ntc d) (anfArms arms (decImm s n).n).2 h.2
+    unfold decImm at h1 h2 h3
+    simp only [dec, anfDflt, noTraitCall, Bool.and_eq_true]
+    exact ⟨h1.1, ⟨h1.2, h2⟩, h3⟩
+  | .cget c idx ty e, n, h => by
+    simp only [noTraitCall] at h
+    have := nt_imm (dec_ntc e) n h
+    unfold decImm at this
+    simp only [dec, noTraitCall]; exact this
+  | .un op ty e, n, h => by
+    simp only [noTraitCall] at h
+    have := nt_imm (dec_ntc e) n h
+    unfold decImm at this
+    simp only [dec, noTraitCall]; exact this
+  | .bin op ty l r, n, h => by
+    simp only [noTraitCall, Bool.and_eq_true] at h
+    have h1 := nt_imm (dec_ntc l) n h.1
+    have h2 := nt_imm (dec_ntc r) (decImm l n).n h.2
+    have h3 := nt_top (dec_ntc r) (decImm l n).n h.2
+    unfold decImm at h1 h2 h3
+    simp only [dec]
+    split
+    · split
+      · simp only [noTraitCall, Bool.and_eq_true]; exact ⟨h1.1, ⟨h1.2, h3⟩, trivial⟩
+      · simp only [noTraitCall, Bool.and_eq_true]; exact ⟨h1.1, ⟨h1.2, trivial⟩, h3⟩
+    · simp only [ntcB_append, noTraitCall, Bool.and_eq_true]
+      exact ⟨⟨h1.1, h2.1⟩, h1.2, h2.2⟩
+  | .call ty f args, n, h => by
+    simp only [noTraitCall, Bool.and_eq_true] at h
+    have h1 := nt_imm (dec_ntc f) n h.1
+    have h2 := decList_ntc args (decImm f n).n h.2
+    unfold decImm at h1 h2
+    simp only [dec, ntcB_append, noTraitCall, Bool.and_eq_true]
+    exact ⟨⟨h1.1, h2.1⟩, h1.2, h2.2⟩
+  | .toDyn tr forTy ty e, n, h => by
+    simp only [noTraitCall] at h
+    have := nt_imm (dec_ntc e) n h
+    unfold decImm at this
+    simp only [dec, noTraitCall]; exact this
+  | .dynCall tr m ty recv args, n, h => by
+    simp only [noTraitCall, Bool.and_eq_true] at h
+    have h1 := nt_imm (dec_ntc recv) n h.1
+    have h2 := decList_ntc args (decImm recv n).n h.2
+    unfold decImm at h1 h2
+    simp only [dec, ntcB_append, noTraitCall, Bool.and_eq_true]
+    exact ⟨⟨h1.1, h2.1⟩, h1.2, h2.2⟩
+  | .proj idx ty e, n, h => by
+    simp only [noTraitCall] at h
+    have := nt_imm (dec_ntc e) n h
+    unfold decImm at this
+    simp only [dec, noTraitCall]; exact this
+theorem decList_ntc : ∀ (es : List Expr) (n : Nat), noTraitCallList es = true →
+    ntcB (decList es n).L = true ∧ noTraitCallList (decList es n).cs = true
+  | [], n, _ => by simp [decList, ntcB, noTraitCallList]
+  | e :: rest, n, h => by
+    simp only [noTraitCallList, Bool.and_eq_true] at h
+    have h1 := nt_imm (dec_ntc e) n h.1
+    have h2 := decList_ntc rest (decImm e n).n h.2
+    unfold decImm at h1 h2
+    simp only [decList, ntcB_append, noTraitCallList, Bool.and_eq_true]
+    exact ⟨⟨h1.1, h2.1⟩, h1.2, h2.2⟩
+theorem anfArms_ntc : ∀ (arms : List Arm) (n : Nat), noTraitCallArms arms = true →
+    noTraitCallArms (anfArms arms n).1 = true
+  | [], n, _ => by simp [anfArms, noTraitCallArms]
+  | .mk lhs body :: rest, n, h => by
+    simp only [noTraitCallArms, Bool.and_eq_true] at h
+    have h1 := nt_top (dec_ntc body) n h.1.2
+    have h2 := anfArms_ntc rest (anf body n ret).2 h.2
+    have h0 : noTraitCall (armHead lhs) = true := by
+      cases lhs <;> try exact h.1.1
+      rename_i c ty args
+      cases c with
+      | struct sn => exact h.1.1
+      | enum tn vn idx => simp [armHead, noTraitCall]
+    simp only [anfArms, noTraitCallArms, Bool.and_eq_true]
+    exact ⟨⟨h0, h1⟩, h2⟩
+end
 
 end Goml.Anf
